@@ -835,6 +835,7 @@ func (dsc *dataStoreCommand) del(keyNames []string, reclaim bool) (output respVa
 				dsc.ds.data.remove(keyName)
 			} else {
 				sk.expiresAt = minTime
+				dsc.setDirty()
 			}
 		} else if reclaim {
 			// remove expired now (if it exists)
